@@ -76,3 +76,125 @@ Theorem discriminant_eq0_partial : forall m (f : seq Z) d,
   (d == 0) = (1 < size (gcdp (Poly f)^`() (Poly f)))%N.
 Proof. exact ResInt.discriminant_eq0_partial. Qed.
 Example eq0_ex : discriminant Checked [:: 1; 2; 1]%Z = (true, Done 0%Z). Proof. vm_compute. reflexivity. Qed.
+
+(** ** Second wave: the exactness flag is always true (sub-resultant structure theorem, see Props/C04.v,
+    plus: the leading coefficient divides det Sylvester(f, f'), whose last column is a multiple of it). *)
+From RNT.Refine Require Import SubresFlag SubresSpec.
+
+(** [P] every truncating division of the run of [discriminant] on a canonical input has remainder zero. *)
+Theorem discriminant_flag_true : forall m (f : seq Z),
+  canonb f = true -> len_ok f = true -> fst (discriminant m f) = true.
+Proof. exact SubresFlag.discriminant_flag_true. Qed.
+
+(** [P] [discriminant] returns a value for every canonical non-zero input, in either mode. *)
+Theorem discriminant_total : forall m (f : seq Z),
+  f <> [::] -> canonb f = true -> len_ok f = true ->
+  exists d, discriminant m f = (true, Done d).
+Proof. exact SubresSpec.discriminant_total. Qed.
+
+(** [P] [discriminant_spec]: for every canonical input of degree >= 1 the value d returned satisfies
+    d * lc f = (-1)^(n(n-1)/2) * det Sylvester(f, f') (no flag hypothesis). *)
+Theorem discriminant_spec : forall m (f : seq Z),
+  canonb f = true -> len_ok f = true -> (1 < size f)%N ->
+  exists d, discriminant m f = (true, Done d) /\
+    d * lead_coef (Poly f) =
+    (-1) ^+ (((size f).-1 * (size f).-1.-1) %/ 2) * \det (Sylvester_mx (Poly f)^`() (Poly f)).
+Proof. exact SubresSpec.discriminant_spec. Qed.
+Example spec_ex :
+  let f := [:: 7; 0; 0; -3; 0; 2]%Z in
+  canonb f = true /\ len_ok f = true /\ discriminant Checked f = (true, Done 117478088%Z).
+Proof. repeat split; vm_compute; reflexivity. Qed.
+
+(** [P] "zero exactly when f has a repeated factor", unconditionally. *)
+Theorem discriminant_eq0 : forall m (f : seq Z),
+  canonb f = true -> len_ok f = true -> (1 < size f)%N ->
+  exists d, discriminant m f = (true, Done d) /\
+            (d == 0) = (1 < size (gcdp (Poly f)^`() (Poly f)))%N.
+Proof. exact SubresSpec.discriminant_eq0. Qed.
+
+(** [P] the leading coefficient divides the Sylvester determinant of (f', f). *)
+Theorem resultant_deriv_lead : forall p : {poly Z}, (1 < size p)%N ->
+  exists t, mxpoly.resultant p^`() p = lead_coef p * t.
+Proof. exact SubresFlag.resultant_deriv_lead. Qed.
+
+(** ** Invariance under affine changes of variable (SubresAffine.v, SubresDiscInv.v) *)
+From RNT.Refine Require Import SubresAffine SubresDiscInv.
+
+(** [P] spec level: Res(A(ax+b), B(ax+b)) = a^(deg A deg B) Res(A, B) over any integral domain, a <> 0
+    (through the Euclid recursion over the fraction field; the classical Res(A, B) is [resultant B A]). *)
+Theorem resultant_affine : forall (R : idomainType) (a b : R) (A B : {poly R}), a != 0 -> A != 0 -> B != 0 ->
+  mxpoly.resultant (B \Po (a *: 'X + b%:P)) (A \Po (a *: 'X + b%:P)) =
+  a ^+ ((size A).-1 * (size B).-1) * mxpoly.resultant B A.
+Proof. exact SubresAffine.resultant_affine. Qed.
+
+(** [P] model level: if g is (the canonical list of) f(a x + b), a <> 0, then
+    discriminant g = a^(n(n-1)) discriminant f, n = deg f >= 1. *)
+Theorem discriminant_affine_model : forall m (f g : seq Z),
+  canonb f = true -> canonb g = true -> len_ok f = true -> len_ok g = true -> (1 < size f)%N ->
+  forall a b : Z, a != 0 -> Poly g = Poly f \Po (a *: 'X + b%:P) ->
+  exists df dg', [/\ discriminant m f = (true, Done df), discriminant m g = (true, Done dg')
+                   & dg' = a ^+ ((size f).-1 * (size f).-2) * df].
+Proof. exact SubresDiscInv.discriminant_affine_model. Qed.
+
+(** [P] "unchanged under x -> x + c": *)
+Theorem discriminant_shift : forall m (f g : seq Z),
+  canonb f = true -> canonb g = true -> len_ok f = true -> len_ok g = true -> (1 < size f)%N ->
+  forall c : Z, Poly g = Poly f \Po ('X + c%:P) ->
+  exists d, discriminant m f = (true, Done d) /\ discriminant m g = (true, Done d).
+Proof. exact SubresDiscInv.discriminant_shift. Qed.
+
+(** [P] "unchanged under x -> -x": *)
+Theorem discriminant_negx : forall m (f g : seq Z),
+  canonb f = true -> canonb g = true -> len_ok f = true -> len_ok g = true -> (1 < size f)%N ->
+  Poly g = Poly f \Po (- 'X) ->
+  exists d, discriminant m f = (true, Done d) /\ discriminant m g = (true, Done d).
+Proof. exact SubresDiscInv.discriminant_negx. Qed.
+
+(** non-vacuity: f = x^3 + x + 3, g = f(x + 1) = x^3 + 3x^2 + 4x + 5, h = f(-x) = -x^3 - x + 3 *)
+Example shift_ex :
+  let f := [:: 3; 1; 0; 1]%Z in let g := [:: 5; 4; 3; 1]%Z in
+  Poly g = Poly f \Po ('X + 1%:P) /\ canonb f = true /\ canonb g = true /\
+  discriminant Checked f = (true, Done (-247)%Z) /\ discriminant Checked g = (true, Done (-247)%Z).
+Proof. split; first exact: SubresDiscInv.shift_ex_poly. by repeat split; vm_compute. Qed.
+Example negx_ex :
+  let f := [:: 3; 1; 0; 1]%Z in let h := [:: 3; -1; 0; -1]%Z in
+  Poly h = Poly f \Po (- 'X) /\ canonb f = true /\ canonb h = true /\
+  discriminant Checked f = (true, Done (-247)%Z) /\ discriminant Checked h = (true, Done (-247)%Z).
+Proof. split; first exact: SubresDiscInv.negx_ex_poly. by repeat split; vm_compute. Qed.
+
+(** ** Multiplicativity (SubresProd.v) *)
+From RNT.Refine Require Import SubresProd.
+
+(** [P] product formula over an algebraically closed field: if A = a * prod (X - alpha_i), a <> 0, B <> 0, then
+    the classical Res(A, B) (= MathComp [resultant B A]) is a^deg B * prod B(alpha_i). Proved through the
+    Euclid recurrence [res_recurrence] and a symmetry lemma on double products (no matrices). *)
+Theorem resultant_roots : forall (F : closedFieldType) (A B : {poly F}) (a : F) (ra : seq F),
+  a != 0 -> A = a *: \prod_(z <- ra) ('X - z%:P) -> B != 0 ->
+  mxpoly.resultant B A = a ^+ (size B).-1 * \prod_(z <- ra) B.[z].
+Proof. exact SubresProd.resultant_roots_eq. Qed.
+
+(** [P] multiplicativity of the resultant over Z[x] (through the embedding of Z into algC). *)
+Theorem resultant_mull_Z : forall A B C : {poly Z}, A != 0 -> B != 0 -> C != 0 ->
+  mxpoly.resultant (B * C) A = mxpoly.resultant B A * mxpoly.resultant C A.
+Proof. exact SubresProd.resultant_mull_Z. Qed.
+Theorem resultant_mulr_Z : forall A B C : {poly Z}, A != 0 -> B != 0 -> C != 0 ->
+  mxpoly.resultant A (B * C) = mxpoly.resultant A B * mxpoly.resultant A C.
+Proof. exact SubresProd.resultant_mulr_Z. Qed.
+
+(** [P] "disc(f*g) = disc(f) * disc(g) * Res(f, g)^2": for canonical lists f, g, fg of degree >= 1 with
+    Poly fg = Poly f * Poly g, on the values returned by the model's [discriminant] and [resultant]. *)
+Theorem discriminant_mul_model : forall m (f g fg : seq Z),
+  canonb f = true -> canonb g = true -> canonb fg = true ->
+  len_ok f = true -> len_ok g = true -> len_ok fg = true ->
+  (1 < size f)%N -> (1 < size g)%N -> Poly fg = Poly f * Poly g ->
+  exists df dg' dfg r,
+    [/\ discriminant m f = (true, Done df), discriminant m g = (true, Done dg'),
+        discriminant m fg = (true, Done dfg), Resultant.resultant m f g = (true, Done r)
+      & dfg = df * dg' * r ^+ 2].
+Proof. exact SubresProd.discriminant_mul_model. Qed.
+Example mul_ex :        (* f = x + 1, g = x - 2, f g = x^2 - x - 2: 9 = 1 * 1 * (-3)^2 *)
+  let f := [:: 1; 1]%Z in let g := [:: -2; 1]%Z in let fg := [:: -2; -1; 1]%Z in
+  Poly fg = Poly f * Poly g /\ canonb fg = true /\
+  discriminant Checked f = (true, Done 1%Z) /\ discriminant Checked g = (true, Done 1%Z) /\
+  discriminant Checked fg = (true, Done 9%Z) /\ Resultant.resultant Checked f g = (true, Done (-3)%Z).
+Proof. split; first exact: SubresProd.mul_ex_poly. by repeat split; vm_compute. Qed.
